@@ -130,7 +130,7 @@ func (g *structGen) symExpr(t types.Type, path string, d string) string {
 			g.tname(t), path, g.recursive(u.Elem(), d), g.tname(t), g.symExpr(u.Elem(), path+`+"."+zzItoa(i)`, g.dec(u.Elem(), d)))
 	case *types.Map:
 		return fmt.Sprintf("func() %s { n := c.n(%s, %s); m := make(%s, n); for i := 0; i < n; i++ { m[%s] = %s }; return m }()",
-			g.tname(t), path, d, g.tname(t), g.keyExpr(u.Key(), path+`+".k"+zzItoa(i)`), g.symExpr(u.Elem(), path+`+".v"+zzItoa(i)`, d))
+			g.tname(t), path, g.recursive(u.Elem(), d), g.tname(t), g.keyExpr(u.Key(), path+`+".k"+zzItoa(i)`), g.symExpr(u.Elem(), path+`+".v"+zzItoa(i)`, g.dec(u.Elem(), d)))
 	}
 	panic("gostructgen: unsupported type " + t.String())
 }
